@@ -17,11 +17,11 @@ RULE = ('random operation histories (append / appendleft / pop / popleft / clear
         'contents minus exactly one). A blocking put on a full token queue (which would block forever in a sequential history) is made '
         'observable by a Queue subclass raising instead of blocking. Token accounting: tokens >= pending after every completed post, and '
         'tokens == pending whenever the history followed the consumer protocol. The same through HsmWithQueues.post_* and '
-        'ActiveObject.post_* (object not started). distinct_nontrivial = distinct (capacity, target, op kind, fill level class) tuples '
+        'ActiveObject.post_* (object not started; a fifth of these posts are made as one-shot TIMED posts - period 0, not deferred - by their posting thread, which is joined before the queue is read). distinct_nontrivial = distinct (capacity, target, op kind, fill level class) tuples '
         'seen with an overflow or a clear. Every eighth case runs clear() from another thread while a consumer (a wait/popleft thread on a bare LockingDeque, or a started object) works through a backlog (detsched): clear() must return without raising, leave no event and no token, and a later post must reach the live consumer')
 CASES = {'quick': 4000, 'thorough': 300000}
 BUDGET = {'quick': 150, 'thorough': 300}
-REQUIRE = {'ops': 50000, 'overflow_fifo': 500, 'overflow_lifo': 500, 'clears': 500, 'clear_on_fresh': 50, 'protocol_histories': 300, 'concurrent_clear_runs': 300, 'clear_landed_mid_backlog': 50, 'aftermath_checked': 200}
+REQUIRE = {'ops': 50000, 'overflow_fifo': 500, 'overflow_lifo': 500, 'clears': 500, 'clear_on_fresh': 50, 'protocol_histories': 300, 'concurrent_clear_runs': 300, 'clear_landed_mid_backlog': 50, 'aftermath_checked': 200, 'one_shot_timed_posts': 300}
 ASSUME = ['sequential histories (one thread) plus clear() racing one consumer; concurrent posting is C04/C05',
           'an active object thread ended by a foreign clear() between its token wait and its popleft/task_done is counted, not judged: no property quantifies over that history']
 
@@ -64,10 +64,15 @@ def subseq_minus_one(old, rest):
   return False
 
 
+class hosts_Inconclusive(Exception):
+  pass
+
+
 class Target:
   """uniform view on the three posting surfaces"""
-  def __init__(self, kind, cap):
+  def __init__(self, kind, cap, timed=None):
     self.kind, self.cap = kind, cap
+    self.timed, self.timed_posts = timed, 0        # rng deciding which posts of an active object are made as one-shot timed posts
     if kind == 'ld':
       self.ld = make_ld(cap)
     elif kind == 'hsm':
@@ -117,6 +122,17 @@ class Target:
         return ld.wait(block=False)
     else:
       c = self.chart
+      if op in ('append', 'appendleft') and self.kind == 'ao' and self.timed is not None and self.timed.random() < 0.2:
+        # the same post made as a ONE-SHOT TIMED post (period 0, not deferred): a posting thread makes it; joined here
+        import threading
+        tid = (c.post_fifo if op == 'append' else c.post_lifo)(Event(signal='C16_EVT', payload=x), period=0.0, times=1, deferred=False)
+        th = next((t for t in threading.enumerate() if t.name == tid), None)
+        if th is not None:
+          th.join(20)
+          if th.is_alive():
+            raise hosts_Inconclusive('the posting thread of a one-shot timed post did not finish within 20 s')
+        self.timed_posts += 1
+        return tid
       if op == 'append':
         return c.post_fifo(Event(signal='C16_EVT', payload=x))
       if op == 'appendleft':
@@ -234,7 +250,7 @@ def run_case(ctx, n):
   cap = rng.choice([3, 3, 8, 8, 500])
   kind = rng.choice(['ld', 'ld', 'hsm', 'ao'])
   protocol = kind != 'hsm' and rng.random() < 0.4     # consumer protocol: wait, then popleft
-  tgt = Target(kind, cap)
+  tgt = Target(kind, cap, timed=ctx.rng('timed', n) if kind == 'ao' else None)
   model = collections.deque()
   tokens_exact = True     # tokens == pending is required as long as the protocol is followed
   hist = []
@@ -362,6 +378,9 @@ def run_case(ctx, n):
         if tgt.contents() or (tgt.tokens() not in (None, 0)):
           ctx.violation('C16/clear-leaves-state', 'after clear(): contents %r tokens %r' % (tgt.contents()[:5], tgt.tokens()), wit)
           return
+    except hosts_Inconclusive:
+      ctx.count('inconclusive_runs')
+      return
     except WouldBlock as ex:
       ctx.violation('C16/post-blocks', '%s would block forever: %s (pending %d of %d, tokens %s)' % (op, ex, len(before), cap, tok_before), wit)
       return
@@ -370,5 +389,6 @@ def run_case(ctx, n):
       return
   if protocol:
     ctx.count('protocol_histories')
+  ctx.count('one_shot_timed_posts', tgt.timed_posts)
   if n < 3:
     ctx.sample({'capacity': cap, 'target': kind, 'protocol': protocol, 'history': hist[:25]})
